@@ -15,7 +15,7 @@ import (
 func init() {
 	// the buffered connection is what re-delivers the same bytes after a short read: its
 	// accounting rules are necessary conditions of segmentation independence too
-	register("C02", c02Retry, c13Release, c13Len, c13Remainder, c13Accumulate, c13Window, c14SkipBound, c13ReadLen, c13AbortFirst, c03EOFConv, c13Cursors)
+	register("C02", c02Retry, c13Release, c13Len, c13Remainder, c13Accumulate, c13Window, c14SkipBound, c13ReadLen, c13AbortFirst, c03EOFConv, c13Cursors, c02Rearm, c14SkipWait)
 }
 
 func isByteSliceT(t types.Type) bool { return isByteSlice(t) }
